@@ -194,7 +194,9 @@ def _run(env, sc, sq, r, nw):
             if k != ver:
                 continue
             c = ds.oic(env, ports[w], path, timeout=10)
-            if ds.judged(c) and c.status == 200 and c.complete and _classify(content, u, c.body) == ver and content.arrivals(u) == after:
+            kc = judge_complete(u, c, "op %d: only-if-cached via the fetching worker %d" % (i, w)) if ds.judged(c) and c.status == 200 else None
+            checks += 1
+            if kc == ver and content.arrivals(u) == after:
                 s["cur"] = ver
                 r.label("store-confirmed")
                 for x in range(SQUID_WORKERS):
